@@ -10,6 +10,11 @@
 //   oracle    : as C10_map, after every engine cycle (+1 trailing): valid output element => instance exists; instance produced
 //               => element present; validity, value and tick pattern equal the isolated instance's; no foreign valid elements;
 //               consumer notified.
+//   mapped function (FMASK bit): 0 add(a,b) = a+b; 1 count(a,b) = a + b + acc, acc += 1000*[a.modified()] + 10^6*[b.modified()]
+//               per evaluation - it looks at WHICH input ticked.  A fresh instance (key joins K) sees every element that already
+//               exists in A / B ticking once at creation (map_node.cpp create_entry_at_slot binds the child inputs "sampled"),
+//               an element that pre-exists never ticks again by itself; count dominates add (same evaluation pattern, output =
+//               add's output + the tick history), so the quick tier explores count only.
 #include "hk_ho.h"
 
 #ifndef NKEYS
@@ -17,6 +22,9 @@
 #endif
 #ifndef NCYC
 #define NCYC 3
+#endif
+#ifndef FMASK
+#define FMASK 2
 #endif
 
 using namespace hk;
@@ -35,7 +43,10 @@ bool sA[NKEYS], sB[NKEYS], sK[NKEYS];
 struct Inst {
     bool exists = false, out_valid = false;
     Int out = 0;
+    U acc = 0;   // count: tick history seen by the instance
 };
+int g_func = 0;   // 0 add, 1 count
+constexpr U W_A = 1000, W_B = 1000000;
 Inst m_inst[NKEYS];
 bool mA[NKEYS], mB[NKEYS];
 Int vA[NKEYS], vB[NKEYS];
@@ -45,6 +56,7 @@ int g_obs_runs = 0, g_checks = 0;
 bool ok_keys = true, ok_valid = true, ok_value = true, ok_ticks = true, ok_foreign = true, ok_notified = true;
 bool r_left_one = false, r_tick_after_left = false, r_returned = false, r_joined_with_held = false, r_key_left = false, r_rejoined = false,
      r_only_one_dict = false;
+bool r_joined_held_inspecting = false, r_held_untouched_other_ticks = false, r_late_element_after_join = false;
 bool ever_left[NKEYS], lost_input[NKEYS];
 
 inline Int cyc(DateTime now) { return (now - MIN_ST).count(); }
@@ -116,6 +128,14 @@ struct FAdd {
     static constexpr auto name = "f_add";
     static void eval(In<"a", TS<Int>> a, In<"b", TS<Int>> b, Out<TS<Int>> out) { out.set((Int)((U)a.value() + (U)b.value())); }
 };
+struct FCount2 {
+    static constexpr auto name = "f_count2";
+    static void eval(In<"a", TS<Int>> a, In<"b", TS<Int>> b, State<Int> acc, Out<TS<Int>> out) {
+        U n = (U)acc.get() + (a.modified() ? W_A : 0) + (b.modified() ? W_B : 0);
+        acc.set((Int)n);
+        out.set((Int)((U)a.value() + (U)b.value() + n));
+    }
+};
 struct Obs {
     static constexpr auto name = "obs";
     static void eval(In<"m", Dict> m, DateTime now, Out<TS<Int>> out) {
@@ -162,7 +182,16 @@ struct Checker {
                 bool both = mA[k] && mB[k];
                 if (both && (created || a_tick || b_tick)) {
                     if (lost_input[k]) { r_returned = true; lost_input[k] = false; }
-                    i.out = (Int)((U)vA[k] + (U)vB[k]); i.out_valid = true; wrote = true;
+                    // what the isolated instance sees ticking: a real tick, or - in the cycle it is created - every element
+                    // that already exists (sampled initial value)
+                    const bool a_seen = a_tick || created, b_seen = b_tick || created;
+                    if (g_func == 1) {
+                        i.acc += (a_seen ? W_A : 0) + (b_seen ? W_B : 0);
+                        if (created && (!a_tick || !b_tick)) r_joined_held_inspecting = true;
+                        if (!created && (a_tick != b_tick)) r_held_untouched_other_ticks = true;
+                        if (!created && !i.out_valid) r_late_element_after_join = true;   // the element held since creation is NOT seen ticking now
+                    }
+                    i.out = (Int)((U)vA[k] + (U)vB[k] + i.acc); i.out_valid = true; wrote = true;
                 } else if (!both && (a_tick || b_tick)) {
                     if (lost_input[k]) r_tick_after_left = true;   // the remaining input ticks: the isolated add produces nothing
                     else r_only_one_dict = true;
@@ -195,8 +224,8 @@ struct Top {
         auto b = wire<DictSrc<1>>(w);
         auto k = wire<KeySrc>(w);
         auto clk = wire<Clock>(w);
-        WiringPortRef m = ho::wire_map(w, Scalar<"func", WiredFn>{FnN<FAdd, 2>::make()}, "", {a.erased(), b.erased()},
-                                       std::optional<WiringPortRef>{k.erased()}, true);
+        WiringPortRef m = ho::wire_map(w, Scalar<"func", WiredFn>{g_func == 1 ? FnN<FCount2, 2>::make() : FnN<FAdd, 2>::make()}, "",
+                                       {a.erased(), b.erased()}, std::optional<WiringPortRef>{k.erased()}, true);
         Port<Dict> mp{w, m};
         auto o = wire<Obs>(w, mp);
         wire<Checker>(w, clk, mp, o);
@@ -207,6 +236,8 @@ struct Top {
 extern "C" int harness_main() {
     register_ho_scalars();
     static_assert(NCYC <= MAXC, "NCYC too large");
+    static_assert((FMASK & 3) != 0, "FMASK selects no function");
+    g_func = (FMASK & 3) == 3 ? verif_choice("func", 2) : ((FMASK & 2) ? 1 : 0);
     run_sim(build_graph<Top>(), MIN_ST, MIN_ST + TimeDelta{NCYC + 3});
 
     verif_assert(g_checks == NCYC + 1, "C10.checker_ran_every_cycle");
@@ -223,6 +254,9 @@ extern "C" int harness_main() {
     if (r_only_one_dict) verif_reach("key_in_only_one_dictionary");
     if (r_key_left) verif_reach("key_left_keyset");
     if (r_rejoined) verif_reach("key_rejoined_keyset");
+    if (r_joined_held_inspecting) verif_reach("tick_inspecting_instance_created_over_held_element");
+    if (r_held_untouched_other_ticks) verif_reach("tick_inspecting_instance_one_input_ticks_other_held");
+    if (r_late_element_after_join) verif_reach("tick_inspecting_first_evaluation_after_join_cycle");
     verif_log("obs_runs", g_obs_runs);
     verif_reach("end");
     return 0;
